@@ -90,12 +90,15 @@ func buildCases(ctx *core.Ctx, progs []*dsl.Program, maxDev int) []*ProgCase {
 		default:
 			pc.Accepted = true
 		}
-		pc.Msgs = r.Messages(maxDev)
-		for _, msg := range pc.Msgs {
+		for _, msg := range r.Messages(maxDev) {
 			enc := r.Encode(msg)
 			if enc.Err != "" {
 				core.HarnessError("reference encoder fails on %s %s: %s", p.Name, msg.ID, enc.Err)
 			}
+			if enc.OutOfDomain {
+				continue // a length-of target larger than its length field can express: outside the value domain
+			}
+			pc.Msgs = append(pc.Msgs, msg)
 			pc.Encs = append(pc.Encs, enc)
 			pc.WireVals = append(pc.WireVals, r.WireValue(msg, enc))
 		}
@@ -195,7 +198,7 @@ func runCodec(ctx *core.Ctx, cases []*ProgCase, langs []string) {
 			cc.GenErr = errClass(err)
 			return
 		}
-		cc.T = &targets.Cell{Name: j.pc.Prog.Name, Lang: j.lang, Files: files, Meta: optMeta(j.pc.Prog), Input: driverInput(j.pc)}
+		cc.T = &targets.Cell{Name: j.pc.Prog.Name, Lang: j.lang, Files: files, Meta: optMeta(j.pc.Prog), Input: driverInput(j.pc), R: j.pc.R}
 		mu.Lock()
 		byLang[j.lang] = append(byLang[j.lang], cc.T)
 		mu.Unlock()
